@@ -165,6 +165,27 @@ def dag_to_terms(dag):
     return out
 
 
+def subst(t, mapping, cache=None):
+    """replace variables by terms: mapping name -> term"""
+    if cache is None:
+        cache = {}
+    r = cache.get(t)
+    if r is not None:
+        return r
+    k = t[0]
+    if k == 'var':
+        r = mapping.get(t[1], t)
+    elif k in ('const', 'named'):
+        r = t
+    elif k == 'ite':
+        r = T('ite', (t[1][0], subst(t[1][1], mapping, cache), subst(t[1][2], mapping, cache)),
+              subst(t[2], mapping, cache), subst(t[3], mapping, cache))
+    else:
+        r = T(*[subst(x, mapping, cache) if isinstance(x, tuple) else x for x in t])
+    cache[t] = r
+    return r
+
+
 def support(t, acc=None):
     """set of variable names a term depends on (syntactically)"""
     if acc is None:
@@ -192,88 +213,202 @@ _ONE = z3.RealVal(1)
 
 
 class Q:
-    """a rational expression n/d over z3 reals (d is None for 1). Rational normalisation keeps
-    reciprocals and quotients out of the solver's variable set; every denominator is separately
-    shown non-zero on the domain (definedness obligations)."""
-    __slots__ = ('n', 'd')
+    """a rational expression n/d over z3 reals (d is None for 1). The denominator is kept as a
+    product of factors with multiplicities (f: id -> (expr, power)) so that sums use the least
+    common denominator instead of the product; every denominator is separately shown non-zero on
+    the domain (definedness obligations)."""
+    __slots__ = ('n', 'f', '_d')
 
-    def __init__(self, n, d=None):
-        self.n, self.d = n, d
+    def __init__(self, n, d=None, f=None):
+        self.n = n
+        if f is not None:
+            self.f = f
+        elif d is None:
+            self.f = {}
+        else:
+            self.f = {d.get_id(): (d, 1)}
+        self._d = d if (f is None) else None
+
+    @property
+    def d(self):
+        if not self.f:
+            return None
+        if self._d is None:
+            self._d = _fprod(self.f)
+        return self._d
 
     def key(self):
-        return (self.n.get_id(), None if self.d is None else self.d.get_id())
+        return (self.n.get_id(), tuple(sorted((k, p) for k, (_e, p) in self.f.items())))
 
     def same(self, o):
-        return self.n.eq(o.n) and ((self.d is None and o.d is None) or
-                                   (self.d is not None and o.d is not None and self.d.eq(o.d)))
+        return self.n.eq(o.n) and self.key()[1] == o.key()[1]
+
+
+def _fprod(f):
+    r = None
+    for k in sorted(f):
+        e, p = f[k]
+        t = _zpow(e, p)
+        r = t if r is None else r * t
+    return _ONE if r is None else r
+
+
+def _lcd(fa, fb):
+    L = dict(fa)
+    for k, (e, p) in fb.items():
+        if k not in L or L[k][1] < p:
+            L[k] = (e, p)
+    return L
+
+
+def _cof(L, f):
+    """L / f as a z3 product (None for 1)"""
+    r = None
+    for k in sorted(L):
+        e, p = L[k]
+        q = p - (f[k][1] if k in f else 0)
+        if q > 0:
+            t = _zpow(e, q)
+            r = t if r is None else r * t
+    return r
+
+
+def _scaled(n, c):
+    return n if c is None else n * c
 
 
 def q_eq(a, b):
     """z3 constraint a == b (denominators non-zero)"""
-    if a.d is None and b.d is None:
+    if a.key()[1] == b.key()[1]:
         return a.n == b.n
-    if a.d is not None and b.d is not None and a.d.eq(b.d):
-        return a.n == b.n
-    ad = _ONE if a.d is None else a.d
-    bd = _ONE if b.d is None else b.d
-    return a.n * bd == b.n * ad
+    L = _lcd(a.f, b.f)
+    return _scaled(a.n, _cof(L, a.f)) == _scaled(b.n, _cof(L, b.f))
+
+
+import threading
+import contextlib
+
+
+@contextlib.contextmanager
+def z3_deadline(seconds):
+    """hard wall-clock bound on z3 library calls: a timer thread interrupts the context (z3's own
+    timeout parameter is not honoured inside some nlsat / simplifier loops)"""
+    ctx = z3.main_ctx()
+    t = threading.Timer(seconds, ctx.interrupt)
+    t.daemon = True
+    t.start()
+    try:
+        yield
+    finally:
+        t.cancel()
+
+
+def q_diff_num(a, b):
+    L = _lcd(a.f, b.f)
+    return _scaled(a.n, _cof(L, a.f)) - _scaled(b.n, _cof(L, b.f))
 
 
 def q_eq_normalised(a, b):
     """a == b with the cross-multiplied difference brought to sum-of-monomials form by z3's
     simplifier first (a polynomial identity then becomes the literal 0 == 0)"""
-    ad = _ONE if a.d is None else a.d
-    bd = _ONE if b.d is None else b.d
-    diff = z3.simplify(a.n * bd - b.n * ad, som=True, som_blowup=10 ** 7)
+    raw = q_diff_num(a, b)
+    try:
+        with z3_deadline(20):
+            diff = z3.simplify(raw, som=True, som_blowup=10 ** 6)
+    except z3.Z3Exception:
+        diff = raw
     return diff == 0
 
 
+def _odd_sign(L):
+    r = None
+    for k in sorted(L):
+        e, p = L[k]
+        if p % 2 == 1:
+            r = e if r is None else r * e
+    return r
+
+
 def q_lt(a, b, strict=True):
-    if a.d is None and b.d is None:
+    if not a.f and not b.f:
         return a.n < b.n if strict else a.n <= b.n
-    ad = _ONE if a.d is None else a.d
-    bd = _ONE if b.d is None else b.d
-    l, r = a.n * ad * bd * bd, b.n * bd * ad * ad
-    return l < r if strict else l <= r
+    L = _lcd(a.f, b.f)
+    diff = _scaled(a.n, _cof(L, a.f)) - _scaled(b.n, _cof(L, b.f))   # (a - b) * L
+    sg = _odd_sign(L)
+    v = diff if sg is None else diff * sg                            # sign(a - b) = sign(v)
+    return v < 0 if strict else v <= 0
 
 
 def q_sign(a, rel):
     """constraint on the sign of a: rel in '>0','>=0','<0','<=0','!=0','==0'"""
-    v = a.n if a.d is None else a.n * a.d
+    sg = _odd_sign(a.f)
+    v = a.n if sg is None else a.n * sg
     return {'>0': v > 0, '>=0': v >= 0, '<0': v < 0, '<=0': v <= 0, '!=0': a.n != 0, '==0': a.n == 0}[rel]
 
 
 def q_add(a, b, sign=1):
     bn = b.n if sign == 1 else -b.n
-    if a.d is None and b.d is None:
+    if not a.f and not b.f:
         return Q(a.n + bn)
-    if a.d is not None and b.d is not None and a.d.eq(b.d):
-        return Q(a.n + bn, a.d)
-    if a.d is None:
-        return Q(a.n * b.d + bn, b.d)
-    if b.d is None:
-        return Q(a.n + bn * a.d, a.d)
-    return Q(a.n * b.d + bn * a.d, a.d * b.d)
+    L = _lcd(a.f, b.f)
+    return Q(_scaled(a.n, _cof(L, a.f)) + _scaled(bn, _cof(L, b.f)), f=L)
+
+
+def _cancel(n, f):
+    """n / prod(f): cancel when the numerator is literally one of the factors"""
+    k = n.get_id()
+    if k in f:
+        e, p = f[k]
+        g = dict(f)
+        if p == 1:
+            del g[k]
+        else:
+            g[k] = (e, p - 1)
+        return _ONE, g
+    return n, f
 
 
 def q_mul(a, b):
-    n = a.n * b.n
-    if a.d is None:
-        return Q(n, b.d)
-    if b.d is None:
-        return Q(n, a.d)
-    return Q(n, a.d * b.d)
+    an, bf = _cancel(a.n, b.f) if b.f else (a.n, b.f)
+    bn, af = _cancel(b.n, a.f) if a.f else (b.n, a.f)
+    if an is _ONE:
+        n = bn
+    elif bn is _ONE:
+        n = an
+    else:
+        n = an * bn
+    f = dict(af)
+    for k, (e, p) in bf.items():
+        f[k] = (e, p + (f[k][1] if k in f else 0))
+    return Q(n, f=f)
 
 
 def q_recip(a):
-    if a.d is None:
-        return Q(_ONE, a.n)
-    return Q(a.d, a.n)
+    n = a.d if a.f else _ONE
+    sn = a.n
+    if z3.is_rational_value(sn) and sn.numerator_as_long() != 0:
+        c = Fraction(sn.denominator_as_long(), sn.numerator_as_long())
+        return Q(n * z3.Q(c.numerator, c.denominator))
+    if z3.is_app(sn) and sn.decl().kind() == z3.Z3_OP_UMINUS:
+        inner = sn.arg(0)
+        return Q(-n, f={inner.get_id(): (inner, 1)})
+    return Q(n, f={sn.get_id(): (sn, 1)})
+
+
+def _q_ite(c, p, q):
+    if not p.f and not q.f:
+        return Q(z3.If(c, p.n, q.n))
+    L = _lcd(p.f, q.f)
+    return Q(z3.If(c, _scaled(p.n, _cof(L, p.f)), _scaled(q.n, _cof(L, q.f))), f=L)
 
 
 def q_pow(a, k):
     n = _zpow(a.n, k)
-    return Q(n, None if a.d is None else _zpow(a.d, k))
+    return Q(n, f={i: (e, p * k) for i, (e, p) in a.f.items()})
+
+
+ODD_FUNCS = ('sin', 'asin', 'atan', 'sinh', 'asinh', 'atanh', 'cbrt')
+EVEN_FUNCS = ('cos', 'cosh')
 
 
 class RealEnc:
@@ -289,6 +424,7 @@ class RealEnc:
         self.named = {}
         self.n = 0
         self.defs = []       # definedness side conditions (constraint, description)
+        self.link_pow_exp = False
 
     def fresh(self, hint):
         self.n += 1
@@ -328,6 +464,40 @@ class RealEnc:
     def need(self, constraint, what):
         self.defs.append((constraint, what))
 
+    def _canon_key(self, q):
+        """argument identity modulo polynomial normal form (so that sin(x*y) of the oracle and
+        sin(y*x) of the implementation are one atom)"""
+        try:
+            with z3_deadline(5):
+                n = z3.simplify(q.n, som=True, som_blowup=2000)
+                d = None if q.d is None else z3.simplify(q.d, som=True, som_blowup=2000)
+        except z3.Z3Exception:
+            return q.key()
+        return (n.get_id(), None if d is None else d.get_id())
+
+    def _same_value(self, p, q):
+        if p.same(q):
+            return True
+        try:
+            with z3_deadline(5):
+                diff = z3.simplify(q_diff_num(p, q), som=True, som_blowup=20000)
+        except z3.Z3Exception:
+            return False
+        return z3.is_rational_value(diff) and diff.numerator_as_long() == 0
+
+    def _point_facts(self, f, args, v):
+        """exact values of the functions at their distinguished points (true facts)"""
+        a = args[0]
+        A = self.axioms
+        zero = {'sin': 0, 'cos': 1, 'tan': 0, 'sinh': 0, 'cosh': 1, 'tanh': 0, 'asin': 0, 'atan': 0,
+                'asinh': 0, 'atanh': 0, 'exp': 1, 'exp2': 1, 'sqrt': 0, 'cbrt': 0}
+        if f in zero:
+            A.append(z3.Implies(q_sign(a, '==0'), v == zero[f]))
+        if f in ('ln', 'acosh'):
+            A.append(z3.Implies(q_eq(a, Q(_ONE)), v == 0))
+        if f in ('sqrt', 'cbrt'):
+            A.append(z3.Implies(q_eq(a, Q(_ONE)), v == 1))
+
     def atom(self, fname, *args):
         """args: Q values; returns Q"""
         a = args[0]
@@ -350,17 +520,36 @@ class RealEnc:
             return q_mul(self.atom('ln', a), self.atom('recip', self.atom('ln', Q(z3.RealVal(10)))))
         if fname == 'log':
             return q_mul(self.atom('ln', a), self.atom('recip', self.atom('ln', args[1])))
-        key = (fname,) + tuple(x.key() for x in args)
+        if fname == 'sqrt' and a.d is not None:
+            # sqrt(n/d) = sqrt(n*d)/|d|: radicands are kept polynomial so that sqrt(1/p) and
+            # 1/sqrt(p) meet in the same atom
+            s = self.atom('sqrt', Q(a.n * a.d))
+            self.need(q_sign(a, '>=0'), 'sqrt of a negative number')
+            return Q(s.n, z3.If(a.d > 0, a.d, -a.d))
+        key = (fname,) + tuple(self._canon_key(x) for x in args)
         if key in self.atoms:
             return Q(self.atoms[key])
+        lst = self.atom_args.setdefault(fname, [])
+        # same argument modulo rational normal form (cross-multiplied difference is the zero
+        # polynomial): the very same atom
+        for (oargs, oval) in lst:
+            if all(self._same_value(p, q) for p, q in zip(args, oargs)):
+                self.atoms[key] = oval
+                return Q(oval)
+        # odd / even symmetry: f(-b) = -f(b) resp. f(b) for an existing atom f(b)
+        if len(args) == 1 and fname in ODD_FUNCS + EVEN_FUNCS:
+            na = Q(-a.n, f=a.f)
+            for (oargs, oval) in lst:
+                if self._same_value(na, oargs[0]):
+                    return Q(-oval) if fname in ODD_FUNCS else Q(oval)
         v = self.fresh(fname)
         self.atoms[key] = v
-        lst = self.atom_args.setdefault(fname, [])
         # functional consistency with earlier atoms of the same function
         for (oargs, oval) in lst:
             self.axioms.append(z3.Implies(z3.And(*[q_eq(p, q) for p, q in zip(args, oargs)]), v == oval))
         lst.append((args, v))
         self._axioms_for(fname, args, v)
+        self._point_facts(fname, args, v)
         return Q(v)
 
     def _axioms_for(self, f, args, v):
@@ -396,7 +585,11 @@ class RealEnc:
             self.need(q_lt(Q(_ONE), a, False), 'acosh below 1')
         elif f == 'atanh':
             self.need(z3.And(q_lt(Q(z3.RealVal(-1)), a), q_lt(a, Q(_ONE))), 'atanh outside (-1,1)')
-        elif f in ('atan', 'asinh', 'atan2'):
+        elif f == 'atan2':
+            # atan2(y, x) = atan(y/x) for x > 0 (sympy rewrites atan2 with a positive second argument)
+            y, x = args
+            A.append(z3.Implies(q_sign(x, '>0'), v == self.atom('atan', q_mul(y, q_recip(x))).n))
+        elif f in ('atan', 'asinh'):
             pass
         else:
             raise Inconclusive(f'no real reading for function {f}')
@@ -472,6 +665,11 @@ class RealEnc:
         if not is_int:
             self.need(q_sign(base, '>0'), 'real power of a non-positive base')
             self.axioms.append(z3.Implies(q_sign(base, '>0'), v > 0))
+            if self.link_pow_exp:
+                # b^e = exp(e ln b) for b > 0 (sympy rewrites exp(e*log(b)) as b**e)
+                lnb = self.atom('ln', base)
+                ex = self.atom('exp', q_mul(expo, lnb))
+                self.axioms.append(z3.Implies(q_sign(base, '>0'), q_eq(Q(v), ex)))
             # the anchor's values at small integer exponents (special-case paths n == 0, 1, 2, 3)
             for k in range(-2, 9):
                 val = Q(_ONE) if k == 0 else (q_pow(base, k) if k > 0 else q_recip(q_pow(base, -k)))
@@ -495,7 +693,7 @@ class RealEnc:
             return q_mul(self.enc(t[1]), self.enc(t[2]))
         if k == 'neg':
             a = self.enc(t[1])
-            return Q(-a.n, a.d)
+            return Q(-a.n, f=a.f)
         if k == 'muladd':
             return q_add(q_mul(self.enc(t[1]), self.enc(t[2])), self.enc(t[3]))
         if k == 'div':
@@ -504,7 +702,7 @@ class RealEnc:
                 bs = z3.simplify(b.n)
                 if z3.is_rational_value(bs) and bs.numerator_as_long() != 0:
                     q = Fraction(bs.denominator_as_long(), bs.numerator_as_long())
-                    return Q(a.n * z3.Q(q.numerator, q.denominator), a.d)
+                    return Q(a.n * z3.Q(q.numerator, q.denominator), f=a.f)
             return q_mul(a, self.atom('recip', b))
         if k == 'powi':
             a, n = self.enc(t[1]), t[2]
@@ -518,17 +716,14 @@ class RealEnc:
             rel = t[1][0]
             c = {'lt': q_lt(x, y), 'le': q_lt(x, y, False), 'eq': q_eq(x, y)}[rel]
             p, q = self.enc(t[2]), self.enc(t[3])
-            if p.d is None and q.d is None:
-                return Q(z3.If(c, p.n, q.n))
-            return Q(z3.If(c, p.n, q.n), z3.If(c, _ONE if p.d is None else p.d, _ONE if q.d is None else q.d))
+            return _q_ite(c, p, q)
         if k == 'fn':
             f = t[1]
             args = [self.enc(x) for x in t[2:]]
             a = args[0]
             if f == 'abs':
                 c = q_sign(a, '>=0')
-                return Q(z3.If(c, a.n, -a.n), a.d) if a.d is None else \
-                    Q(z3.If(c, a.n, -a.n), a.d)
+                return Q(z3.If(c, a.n, -a.n), f=a.f)
             if f == 'signum':
                 v = self.fresh('sgn')
                 self.axioms += [z3.Implies(q_sign(a, '>0'), v == 1), z3.Implies(q_sign(a, '<0'), v == -1),
@@ -537,8 +732,7 @@ class RealEnc:
             if f in ('max', 'min'):
                 b = args[1]
                 c = q_lt(b, a, False) if f == 'max' else q_lt(a, b, False)
-                return Q(z3.If(c, a.n, b.n), None if (a.d is None and b.d is None) else
-                         z3.If(c, _ONE if a.d is None else a.d, _ONE if b.d is None else b.d))
+                return _q_ite(c, a, b)
             if f == 'powf':
                 return self.pow_atom(args[0], args[1])
             return self.atom(f, *args)
